@@ -226,6 +226,10 @@ pub struct Tx {
     /// F1 plan: 1-based indexes of the attribute callbacks of each attempt that fail
     #[serde(default)]
     pub f1: Vec<u32>,
+    /// F2 plan: 0-based indexes of the eligible commit attempts of this transaction that report
+    /// a validation failure (the body is then re-executed)
+    #[serde(default)]
+    pub f2: Vec<u32>,
 }
 
 #[derive(Clone, Debug, PartialEq, Eq, Hash, Serialize, Deserialize)]
@@ -246,6 +250,9 @@ pub struct TxOut {
     pub attempts: u32,
     /// attribute callbacks that returned an error during the last attempt (injected or natural)
     pub rejections: u32,
+    /// attribute callbacks run by the last attempt
+    #[serde(default)]
+    pub callbacks: u32,
 }
 
 impl TxOut {
@@ -273,6 +280,9 @@ pub fn run_tx(m: &AnyMap, tx: &Tx) -> TxOut {
     fast_stm::verif::clear_attempts();
     faults::arm(&tx.f1);
     faults::clear_rejections();
+    if !tx.f2.is_empty() {
+        fast_stm::verif::set_forced_failures(tx.f2.clone());
+    }
     let value = match tx.runner {
         Runner::WithErr => match atomically_with_err(|t| body(m, t, tx)) {
             Ok(v) => TxValue::Ok(v),
@@ -311,9 +321,13 @@ pub fn run_tx(m: &AnyMap, tx: &Tx) -> TxOut {
         }
     };
     let rejections = faults::rejections();
+    let callbacks = faults::callbacks_in_last_attempt();
     faults::disarm();
+    if !tx.f2.is_empty() {
+        fast_stm::verif::set_forced_failures(vec![]);
+    }
     let stamp = if matches!(value, TxValue::Ok(_)) { fast_stm::verif::last_commit_stamp() } else { 0 };
-    TxOut { value, stamp, attempts: fast_stm::verif::attempts_of_this_thread(), rejections }
+    TxOut { value, stamp, attempts: fast_stm::verif::attempts_of_this_thread(), rejections, callbacks }
 }
 
 /// Plain `atomically` helper for harness-side reads.
